@@ -65,6 +65,7 @@ def mode_of(name: str) -> Any:
 
 KF_MP_API = "C07-mp-run-with-api-data-never-returns"
 HANG_S = 60.0        # watchdog of a MULTIPROCESSING operation
+KF_FRESH_NONDET = "C07-fresh-run-all-not-a-function-in-planner-defect-domain"
 HANG_S_KF = 8.0      # the same inside the known-defect domain kf_mp_api (such a run takes < 1 s when it returns at all)
 
 
@@ -351,29 +352,48 @@ def run_session_case(case: Dict[str, Any], rep_ops: Optional[List[Dict[str, Any]
             o["unmodelled_raise"] = True
         if o["status"] == "raised" and not o["raised_steps"]:
             o["unmodelled_raise"] = True      # raised by the main thread outside a step (e.g. result collection)
-        f_status, f_val = fresh(eff, op["fail"], op["mode"])
-        if o["status"] == "raised":
-            if f_status != "raised":
-                rec["problems"].append(f"op {i} ({kind}, {op['mode']}): raised ({o.get('msg')}) but a fresh run_all succeeds")
-            elif bool(o["fault"]) != bool(f_val):
-                rec["problems"].append(f"op {i} ({kind}): the injected fault is reported by one of session / fresh run_all only "
-                                       f"(session {o['fault']}, fresh {f_val})")
-        elif o["status"] == "ok":
-            if f_status != "ok":
-                rec["problems"].append(f"op {i} ({kind}, {op['mode']}): succeeded but a fresh run_all raises")
-            elif o["tables"] != f_val:
-                rec["problems"].append(f"op {i} ({kind}, {op['mode']}): result differs from a fresh run_all with the same api_data")
-        elif o["status"] == "abandoned":
-            if f_status == "ok":
-                rest = list(f_val)
-                for t in o["tables"]:
-                    if t in rest:
-                        rest.remove(t)
-                    else:
-                        rec["problems"].append(f"op {i} (abandon after {op['j']}): a streamed table is not a table of the fresh run_all")
-                        break
-                if len(o["tables"]) != op["j"]:
-                    rec["problems"].append(f"op {i}: abandoned stream handed out {len(o['tables'])} items, asked {op['j']}")
+        def versus_fresh(f_status: str, f_val: Any, o: Dict[str, Any] = o, op: Dict[str, Any] = op, kind: str = kind, i: int = i) -> List[str]:
+            out: List[str] = []
+            if o["status"] == "raised":
+                if f_status != "raised":
+                    out.append(f"op {i} ({kind}, {op['mode']}): raised ({o.get('msg')}) but a fresh run_all succeeds")
+                elif bool(o["fault"]) != bool(f_val):
+                    out.append(f"op {i} ({kind}): the injected fault is reported by one of session / fresh run_all only "
+                               f"(session {o['fault']}, fresh {f_val})")
+            elif o["status"] == "ok":
+                if f_status != "ok":
+                    out.append(f"op {i} ({kind}, {op['mode']}): succeeded but a fresh run_all raises")
+                elif o["tables"] != f_val:
+                    out.append(f"op {i} ({kind}, {op['mode']}): result differs from a fresh run_all with the same api_data")
+            elif o["status"] == "abandoned":
+                if f_status == "ok":
+                    rest = list(f_val)
+                    for t in o["tables"]:
+                        if t in rest:
+                            rest.remove(t)
+                        else:
+                            out.append(f"op {i} (abandon after {op['j']}): a streamed table is not a table of the fresh run_all")
+                            break
+                    if len(o["tables"]) != op["j"]:
+                        out.append(f"op {i}: abandoned stream handed out {len(o['tables'])} items, asked {op['j']}")
+            return out
+        probs = versus_fresh(*fresh(eff, op["fail"], op["mode"]))
+        if probs and in_kf and op["mode"] == "SYNC":
+            # Inside the planner defect domains the PLAN of a request depends on the uuids of the preparation (known findings
+            # C04-nondet-*): a fresh run_all is then itself not a function of its arguments.  The difference is attributed to that
+            # finding only if repeating the fresh call (new preparations, same arguments) gives DIFFERENT outcomes, one of which is
+            # the session's; otherwise it stays a violation.
+            key = json.dumps([eff, op["fail"], op["mode"]], sort_keys=True)
+            first = fresh_memo[key]
+            for _ in range(12):
+                del fresh_memo[key]
+                again = fresh(eff, op["fail"], op["mode"])
+                if again != first and not versus_fresh(*again):
+                    rec.setdefault("kf", []).append((KF_FRESH_NONDET, i))
+                    probs = []
+                    break
+            fresh_memo[key] = first
+        rec["problems"] += probs
     deadline = time.time() + 5
     while time.time() < deadline and (set(threading.enumerate()) - base_threads):
         time.sleep(0.01)
@@ -539,6 +559,11 @@ def part_a(rep: vlib.Reporter, tier: str, rng: random.Random, modes: bool = Fals
             rep.finding("session:" + p[:60] + ":" + json.dumps(rec["case"]["spec"], sort_keys=True)[:200], f"session history ({fam}): " + p,
                         {"kind": "session", "case": rec["case"], "ops": rec["ops"], "problem": p})
         for key, i in rec.get("kf", []):
+            if key == KF_FRESH_NONDET:
+                dist["ops_differing_from_a_fresh_call_whose_own_outcome_varies"] = dist.get("ops_differing_from_a_fresh_call_whose_own_outcome_varies", 0) + 1
+                rep.finding(key, f"op {i} of {rec['ops']} differs from a fresh run_all whose own outcome varies between calls",
+                            {"kind": "session", "case": rec["case"], "ops": rec["ops"]})
+                continue
             dist["ops_in_known_defect_domain_not_returning"] = dist.get("ops_in_known_defect_domain_not_returning", 0) + 1
             rep.finding(key, f"op {i} of {rec['ops']} did not return", {"kind": "session", "case": rec["case"], "ops": rec["ops"]})
     modelled = [r for r in recs if not any(o.get("unmodelled_raise") for o in r["obs"]) and not any(o["status"] == "hang" for o in r["obs"])]
